@@ -81,7 +81,11 @@ CLAIMED = {
         "validated by TLC for: same convention after clip and after save + reopen, every kept cell has exactly its original "
         "polygon and no new polygon appears (explicit geometry), every supplied connectivity variable present, re-indexed as "
         "specified and mutually consistent, start_index / integer type / dimension order kept in the written file, and "
-        "select_variables leaving every polygon identical.",
+        "select_variables leaving every polygon identical. The thorough tier additionally model-checks the composed machine "
+        "spec/EmsSystem.tla (sessions mixing access / copy / make, save, load and apply masks / select variables / in-place "
+        "modification / save / reopen on DERIVED datasets) for base worlds of every detectable convention and replays TLC-emitted "
+        "sessions on real datasets, validating after every action the produced dataset and the binding of every live dataset "
+        "(Trace_System).",
    note="Derived (not stored) CF bounds are outside the geometry clause; edge tables need edge-node connectivity to have a defined numbering; plain ArakawaC is re-bound by hand.",
    ref="5 C09"),
  "C10": dict(
